@@ -202,9 +202,13 @@ def oracle(ctx, hist, w):
             flags[e["site"]] = flags.get(e["site"], 0) + 1
         det = {k: (str(v) if isinstance(v, Fraction) else v) for k, v in e.items() if k not in ("rates",)}
         det["rates"] = [str(x) for x in e["rates"]]
-        if single:
-            # provenance: every rate behind the plan is a released screening of that site
-            avail = [r for (dn, mi, r) in screened.get(e["site"], []) if dn + hist["methods"][mi]["rd"] <= e["day"]]
+        # flag events (pool / instant route) are checked for any number of screening methods (the plan comes
+        # from the method's own pool or is new: Lean C09_flags_any_methods); re-insertions of queued plans
+        # only for a single method (with several, the queued plan may belong to another method)
+        if single or kind != "reinsert":
+            # provenance: every rate behind the plan is a released screening of that site by this method
+            avail = [r for (dn, mi, r) in screened.get(e["site"], [])
+                     if mi == i and dn + hist["methods"][mi]["rd"] <= e["day"]]
             need = list(e["rates"])
             for r in need:
                 if r in avail:
@@ -244,18 +248,18 @@ def oracle(ctx, hist, w):
             V(SIG_STALE_INSTANT, "a site bypassed the pool on a screening made before its latest tagging survey "
               "(the release-time check did not hold)", det)
 
-    # --- decisions: delay and proportion -----------------------------------------------------------
-    if single:
-        mp = hist["methods"][0]
+    # --- decisions: delay and proportion (per screening method) --------------------------------------
+    for mi_ in range(nm):
+        mp = hist["methods"][mi_]
         prop = Fraction(*mp["prop"])
-        dec_by_day = {d["day"]: d for d in w.decisions}
+        dec_by_day = {d["day"]: d for d in w.decisions if d["method"] == mi_}
         first = None
         for sn in w.snaps:
-            if sn["op"] != "update":
+            if sn["op"] != "update" or sn["method"] != mi_:
                 continue
             dn = sn["day"]
             dec = dec_by_day.get(dn)
-            pool_mid = dec["pool"] if dec is not None else sn["pools"][0][0]
+            pool_mid = dec["pool"] if dec is not None else [(int(s_[1:]), r_) for (s_, r_) in sn["pools"][mi_][0]]
             if first is None and pool_mid:
                 first = dn
             if dec is not None:
@@ -279,7 +283,8 @@ def oracle(ctx, hist, w):
                 seen["rejected"] += n - len(dec["kept"])
                 kept_sites = {s for (s, _) in dec["kept"]}
                 for e in w.queue_log:
-                    if e["day"] == dn and e["ctx"] == "decision" and e["site"] not in kept_sites:
+                    if e["day"] == dn and e["ctx"] == "decision" and e["who"] == "M%d" % mi_ \
+                            and e["site"] not in kept_sites:
                         V("C09:proportion:flagged-not-kept", "a site outside the kept candidates was flagged", det)
                 first = None
 
@@ -291,7 +296,7 @@ def oracle(ctx, hist, w):
             # by the stale record and no plan may have been created from it
             pre = r["pre"]["pool"] + r["pre"]["queue"]
             post = r["post"]["pool"] + r["post"]["queue"]
-            if single and (any(x not in pre for x in post)):
+            if any(x not in pre for x in post):
                 V("C09:stale:release-check", "a screening made before the site's latest tagging survey was processed",
                   {"day": r["day"], "site": r["site"], "screening_day": r["dc"], "latest_tagging_survey": r["tag"]})
 
@@ -321,7 +326,7 @@ def oracle(ctx, hist, w):
             seen["stale_strict"] += 1
             V(SIG_STALE_POOLED, "a follow-up survey was made on a screening older than the site's latest tagging "
               "survey (queued request not withdrawn)", v)
-    if single:
+    if True:     # any number of methods (Lean C09_done_le_flags_any_methods)
         for s, k in done.items():
             if k > flags.get(s, 0):
                 V("C09:more-followups-than-flags", "more completed follow-up surveys than flags for a site",
